@@ -422,6 +422,20 @@ static void check_section_step(cfg_t *ctx, int accepted)
 				V_ASSERT(cfg_opt_size(z) == 1 && cfg_opt_getnstr(z, 0) != NULL && strcmp(cfg_opt_getnstr(z, 0), "q") == 0,
 					 "[C01] unmentioned options of a new instance keep their declared defaults (string)");
 				V_ASSERT(a != &sub_opts[0] && a->name != sub_opts[0].name, "[C16] a section instance owns a private copy of the declarations");
+#ifdef CHK_C16
+				V_ASSERT(z->def.string != sub_opts[1].def.string && z->name != sub_opts[1].name && s->opts != sub_opts, "[C16] names and default strings of a new instance are copies, not the declarations");
+				V_ASSERT(sub_opts[0].nvalues == 0 && sub_opts[0].values == NULL && sub_opts[1].values == NULL, "[C16] creating an instance never writes to the declarations");
+				if (NV >= 1 && dup != 0 && pre_sec[0] != NULL && pre_sec[0] != s) {
+					cfg_opt_t *pa = &pre_sec[0]->opts[0], *pz = &pre_sec[0]->opts[1];
+
+					V_ASSERT(s->opts != pre_sec[0]->opts && a->name != pa->name && a->values != pa->values && a->values[0] != pa->values[0] &&
+							 z->values[0]->string != pz->values[0]->string && z->def.string != pz->def.string && s->name != pre_sec[0]->name,
+						 "[C16] sibling instances share no option array, name, default or value object");
+					a->values[0]->number = 99; /* write through the new instance */
+					z->values[0]->string[0] = 'X';
+					V_ASSERT(pa->values[0]->number == 7 && pz->values[0]->string[0] == 'q', "[C16] changing one instance is invisible in its sibling");
+				}
+#endif
 			}
 			if (O->flags & CFGF_TITLE)
 				V_ASSERT(s->title != NULL && strcmp(s->title, pre_opttitle) == 0, "[C01] the new instance carries the given title");
@@ -747,6 +761,9 @@ static void post_step(cfg_t *cfg, struct pstate *ps)
 	V_ASSERT(*ps->opttitle == NULL || V_R_OK(*ps->opttitle, 1), "[C07] the pending title is either absent or a live string");
 	for (i = 0; i < 3 && i < ps->funcopt->nvalues; i++)
 		V_ASSERT(V_R_OK(ps->funcopt->values[i], sizeof(cfg_value_t)) && V_R_OK(ps->funcopt->values[i]->string, 1), "[C07] collected call arguments are live");
+#ifdef WITH_PATH
+	V_ASSERT(root.path == the_path && V_R_OK(the_path, sizeof(*the_path)) && V_R_OK(the_path->dir, 2), "[C07] the root's search path survives (sections only borrow it)");
+#endif
 	if (*ps->opt != NULL && PSTATE <= 9) {
 		V_ASSERT((*ps->opt)->nvalues == 0 || V_R_OK((*ps->opt)->values, (*ps->opt)->nvalues * sizeof(cfg_value_t *)), "[C07] the value vector of the active option is live");
 		V_ASSERT((*ps->opt)->comment == NULL || V_R_OK((*ps->opt)->comment, 1), "[C07] the annotation of the active option is live");
